@@ -245,6 +245,17 @@ def _type_names(te, acc):
         _type_names(te[2], acc)
 
 
+def _array_bases(d):
+    """the type names that stand behind `of` in the parameter / variable declarations of procedure d"""
+    acc = set()
+    for te in [t for _, _, t in d[2]] + [t for _, t in d[3]]:
+        while te[0] != "named":
+            te = te[2]
+            if te[0] == "named":
+                acc.add(te[1])
+    return acc
+
+
 def shadow_global(prog, rng):
     """Renames one local (parameter or variable) of one procedure to the name of a GLOBAL entity that stays
     well-typed: the procedure's own name or another procedure's name (when the body does not call it), or - for a
@@ -279,7 +290,11 @@ def shadow_global(prog, rng):
                         cands.append((di, li, old, new, "type"))
     if not cands:
         return None
-    di, li, old, new, _ = rng.choice(cands)
+    # prefer the class of the repaired defect C14-hover-local-before-global: a local named like its own procedure or like
+    # a type that the procedure's declarations use (those occurrences are bound globally although a local has the name)
+    hot = [c for c in cands if c[4] == "type" or c[3] == prog[c[0]][1]]
+    arr = [c for c in hot if c[4] == "type" and c[3] in _array_bases(prog[c[0]])]      # the type name stands behind `of`
+    di, li, old, new, _ = rng.choice(arr if arr and rng.random() < 0.5 else hot if hot and rng.random() < 0.7 else cands)
     d = prog[di]
     params = [(r, new if (i == li) else n, t) for i, (r, n, t) in enumerate(d[2])]
     vars_ = [(new if (i + len(d[2]) == li) else n, t) for i, (n, t) in enumerate(d[3])]
